@@ -242,7 +242,10 @@ pub fn rand_fault(rng: &mut Rng, horizon: usize) -> FaultPlan {
         3 => FaultAt::Flush(rng.below(horizon / 3 + 1)),
         _ => FaultAt::OutBytes(rng.below(horizon * 8)),
     };
-    let kind = match rng.below(8) {
+    let kind = match rng.below(9) {
+        // a write answered Ok(0): the call reports WriteZero, the handle stays up and the
+        // application carries on with it (for a read or a flush this degrades to an error)
+        8 => FaultKind::WriteZero,
         0 => FaultKind::Eof,
         1 => FaultKind::Error(ErrKind::TimedOut),
         2 => FaultKind::Error(ErrKind::Interrupted),
